@@ -13,6 +13,7 @@ class Tracer(object):
         self.kill_at = kill_at
         self.torn = torn
         self._saved = None
+        self._pending = {}
 
     def pid(self, path):
         p = os.path.realpath(path)
@@ -24,9 +25,15 @@ class Tracer(object):
 
     def _point(self, op, f=None, data=None):
         if self.kill_at is not None and len(self.ops) == self.kill_at:
-            if self.torn and op[0] == "write" and f is not None and data:
-                f.write(data[:max(1, len(data) // 2)])
-                f.flush()
+            if self.torn and op[0] in ("close", "sync") and f is not None:
+                # a torn flush: only part of the buffered data reaches the file
+                try:
+                    pending = self._pending.get(id(f), b"")
+                    raw = f.buffer.raw if hasattr(f, "buffer") else f.raw
+                    part = pending[:max(1, len(pending) // 2)]
+                    raw.write(part if isinstance(part, bytes) else part.encode())
+                except Exception:
+                    pass
             os._exit(17)
         self.ops.append(op)
 
@@ -39,18 +46,18 @@ class Tracer(object):
                 self._f, self._i = f, i
 
             def write(self, data):
+                tr._pending[id(self._f)] = tr._pending.get(id(self._f), b"") + (data if isinstance(data, bytes) else data.encode())
                 tr._point(("write", self._i), self._f, data)
-                n = self._f.write(data)
-                self._f.flush()      # unbuffered under trace: the model's `write` reaches the file at once
-                return n
+                return self._f.write(data)    # buffered, as in the model: reaches the file at flush / close
 
             def flush(self):
-                tr._point(("sync", self._i))
+                tr._point(("sync", self._i), self._f)
+                tr._pending[id(self._f)] = b""
                 return self._f.flush()
 
             def close(self):
                 if not self._f.closed:
-                    tr._point(("close", self._i))
+                    tr._point(("close", self._i), self._f)
                 return self._f.close()
 
             def fileno(self):
